@@ -89,7 +89,7 @@ MANIFEST = {
         "design_ref": "DESIGN.md 3/C07, docs/variant.md",
     }
 }
-PROPS = ["Nstd.Variant.Props", "Nstd.Variant.PropsGen", "Nstd.Variant.PropsGenOrder", "Nstd.Variant.PropsAtof"]
+PROPS = ["Nstd.Variant.Props", "Nstd.Variant.PropsGen", "Nstd.Variant.PropsGenOrder", "Nstd.Variant.PropsAtof", "Nstd.Variant.PropsGenWalk"]
 LEAN_TARGETS = PROPS + ["drv_variant"]
 DRIVER = "drv_variant"
 NV = 6
